@@ -18,10 +18,10 @@ add("C03", "exploration", "runtime postconditions on the real operator builders 
     "numpy/scipy linear algebra; the mesh's own geometry arrays define the operators here (their correctness is C07)", "DESIGN.md 4/C03")
 
 add("C01", "exploration", "online charge-balance monitor at every TDGLSolver.update return + offline check of every HDF5 frame, CODATA-based expected fluxes",
-    "Per-cell net outflow (from edge currents and dual lengths) is compared at every update return and on every saved frame with the requested terminal current's share of that cell, over generated devices (2-4 terminals, holes, units, fields, constant/decimal/time-dependent currents, screening, adaptive). Also: every generated balanced assignment must be accepted. Workloads include weak bias (1e-9 of the natural scale), staircase / switched currents (terminals unnamed while they carry nothing), callables of every kind (function, partial, bound method, object), one solver solved twice, devices used before. Held on the runs explored.",
+    "Per-cell net outflow (from edge currents and dual lengths) is compared at every update return and on every saved frame with the requested terminal current's share of that cell, over generated devices (2-4 terminals, holes, units, fields, constant/decimal/time-dependent currents, screening, adaptive). Also: every generated balanced assignment must be accepted. Workloads include weak bias (1e-9 of the natural scale), staircase / switched currents (terminals unnamed while they carry nothing), callables of every kind (function, partial, bound method, object), one solver solved twice, devices used before; the caller's dicts / options are unchanged by solve(). Held on the runs explored.",
     "terminal edge membership and dual lengths taken from the mesh (checked in C07); gate 1e-8 relative", "DESIGN.md 4/C01")
 add("C02", "exploration", "long-double reference oracle on every solve_for_psi_squared return (generated inputs + in situ)",
-    "The documented static method is called on ~1e6 generated site-cases spanning the input space (exact zeros, tiny/large |psi|, gamma=0, ten decades of dt, random sparse and mesh Laplacians) and on every call made by full simulations; a long-double evaluation of the documentation's equations decides answered/refused, the quadratic's backward error, psi'+z|psi'|^2=w, |psi'|^2 consistency and the branch. In situ the arguments of every call are tied to the state handed to update() (psi^n, |psi^n|^2, mu^n bit-equal / 1e-13) and the step reported by update() to the accepted solve.",
+    "The documented static method is called on ~1e6 generated site-cases spanning the input space (exact zeros, tiny/large |psi|, gamma=0, ten decades of dt, random sparse and mesh Laplacians) and on every call made by full simulations; a long-double evaluation of the documentation's equations decides answered/refused, the quadratic's backward error, psi'+z|psi'|^2=w, |psi'|^2 consistency and the branch. In situ the arguments of every call are tied to the state handed to update() (psi^n, |psi^n|^2, mu^n bit-equal / 1e-13, epsilon(t^n), the layer's gamma and u) and the step reported by update() to the accepted solve.",
     "80-bit long double as reference; decision band 1e-9 of the discriminant's terms; overflowing inputs skipped", "DESIGN.md 4/C02")
 add("C05", "exploration", "reference model (executable run specification) over recorded update/save traces, checked on the HDF5 file and the loaded Solution",
     "From the dt sequence actually returned by update the model derives the final step, the frame set, frame times and per-step records; every frame's datasets must hash-equal the state after exactly s updates, records must appear once and in order, Solution.times/dynamics must agree, also after selecting another frame (solve_step / from_hdf5(solve_step=)); steps down to 1e-12. Thorough enumerates k=1..N+2, N=0..12 x fixed/adaptive(with retries) x thermalisation x probes (exhaustive within that bound).",
@@ -64,13 +64,13 @@ add("C14", "exploration", "round-trip differential on objects (hdf5, pickle, cop
     "Devices (hdf5 with/without mesh, pickle, copy; mesh full/compressed/from_triangulation), Solutions (in place / copy; every option incl. None-valued; every recorded step; dynamics; drives evaluated at random points/times) and composite parameters carried through a Solution file are written and read back with the real functions and compared bit-wise; reloaded devices must solve identically; memory-only solutions incl. a second generation; relative output paths; Constant leaves.",
     "h5py/pickle correct; time_created excluded", "DESIGN.md 4/C14")
 add("C15", "fault_enumeration", "fault injection at every (stage, step, hook point) incl. mid-frame-writer and line-level sys.monitoring failpoints, audited from outside",
-    "For every step 0..N and both stages RuntimeError/KeyboardInterrupt are injected at update entry/exit, save entry/middle(each dataset)/exit; explicit path or temp; pre-existing files; pause answers. Audit: output reopens r and r+, frames == completed saves and pass the C05 checker as a prefix, no .tmp/tempdir/stray file, pre-existing files byte-identical, error propagates / cancellation returns a usable partial solution. Faults in the MIDDLE of update() (n-th observables / kernel call) with screening; seven sets of pre-existing files. Thorough adds statement-level failpoints in _run_stage, save_time_step, __enter__, close, _create_output_file.",
+    "For every step 0..N and both stages RuntimeError/KeyboardInterrupt are injected at update entry/exit, save entry/middle(each dataset)/exit; explicit path or temp; pre-existing files; pause answers. Audit: output reopens r and r+, frames == completed saves and pass the C05 checker as a prefix, no .tmp/tempdir/stray file, pre-existing files byte-identical, error propagates / cancellation returns a usable partial solution. Faults inside the arithmetic of solve_for_psi_squared, Ctrl-C twice, faults in the MIDDLE of update() (n-th observables / kernel call) with screening; seven sets of pre-existing files. Thorough adds statement-level failpoints in _run_stage, save_time_step, __enter__, close, _create_output_file.",
     "faults inside h5py's C code not modelled; exhaustive within the listed (case, step, point, exception) grid", "DESIGN.md 4/C15")
 add("C18", "exploration", "postconditions on polygon/device operations against a winding-number membership oracle, shoelace areas and byte-level aliasing checks",
     "Random boxes/circles/ellipses (any vertex count, orientation, centre, scale over four decades): stored points closed+CCW, set operations (methods, operators, classmethods) vs membership of operands at probe points away from outlines, inclusion-exclusion, affine transforms (areas, mapped points, mapped vertices, reflections), inplace/non-inplace/copy aliasing (incl. the layer), Device.contains_points vs film-and-not-holes, Device-level transforms, translation() left by an exception, meshed devices moved in place, finely sampled outlines far from the origin.",
     "probe points closer than 1e-6 (relative) to an outline are not judged", "DESIGN.md 4/C18")
 add("C19", "fault_enumeration", "negative enumeration of ill-posed inputs with filesystem / temp-dir / hook watch",
-    "Each member of 56 ill-posed classes (incl. options edited after construction, a terminal moved off the boundary after a first solve, seeds from devices with fewer terminals / holes) (magnitudes from gross to 1e-6; with/without output path) must raise, and afterwards: output directory empty, no TemporaryDirectory created, DataHandler never entered, update never called.",
+    "Each member of 58 ill-posed classes (incl. options edited after construction, a terminal moved off the boundary after a first solve, seeds from devices with fewer terminals / holes) (magnitudes from gross to 1e-6; with/without output path) must raise, and afterwards: output directory empty, no TemporaryDirectory created, DataHandler never entered, update never called.",
     "callables unbalanced in a window < 25% are observations only", "DESIGN.md 4/C19")
 add("C20", "exploration", "differential against direct SI sums and loop quadrature; Solution-level parts vs direct sums from its own currents",
     "biot_savart_2d (vector/scalar, units, linearity, additivity over sources) vs a numpy Biot-Savart sum; current_loop_vector_potential vs spectral quadrature incl. near/on-axis and small-elliptic-parameter points judged relative to |A| there; integer- vs float-typed evaluation points; one evaluation point; the same lateral positions at other heights; weak drives in large units; loop drives; convert_field round trips and B = mu0 H; on solved devices field_at_position / vector_potential_at_position: total = sum of parts, parts = direct sums from the solution's own sheet currents and areas in several units, applied part = the user's parameter.",
